@@ -209,6 +209,29 @@ impl<'tcx> Cx<'tcx> {
             }
             _ => {}
         }
+        // closures / fn items / type parameters nested anywhere in the type
+        let mut inner = Vec::new();
+        let mut has_param = false;
+        for ga in t.walk() {
+            if let Some(it) = ga.as_type() {
+                match it.kind() {
+                    ty::Closure(did, _) | ty::FnDef(did, _) => {
+                        let p = self.path(*did);
+                        if !inner.contains(&p) {
+                            inner.push(p);
+                        }
+                    }
+                    ty::Param(_) => has_param = true,
+                    _ => {}
+                }
+            }
+        }
+        if !inner.is_empty() {
+            v.push(("fns", J::Arr(inner.iter().map(|p| J::s(p)).collect())));
+        }
+        if has_param {
+            v.push(("has_param", J::Bool(true)));
+        }
         J::obj(v)
     }
 
@@ -525,6 +548,7 @@ impl<'tcx> Cx<'tcx> {
                 ("kind", J::s(&format!("{:?}", kind).split('(').next().unwrap_or("").to_string())),
                 ("op", self.operand(body, env, op)),
                 ("from", self.ty(op.ty(&body.local_decls, tcx))),
+                ("from_info", self.ty_info(op.ty(&body.local_decls, tcx))),
                 ("to", self.ty(*t)),
             ]),
             Rvalue::BinaryOp(op, ab) => J::obj(vec![
